@@ -2,6 +2,7 @@ From Coq Require Import List Arith.
 Import ListNotations.
 From UJ Require Import Engine.Engine Engine.EngineOrd.
 From UJ Require Import Base.Graph Cache.Prune Cache.PruneProofs.
+From UJ Require Import Cache.EndToEnd.
 
 Theorem C01_start_after_deps :
   forall (c : cfg) (s : st), cfg_ok c -> reachable c s ->
@@ -37,3 +38,15 @@ Theorem C01_prune_general :
   reach (to_graph p) a b -> reach (to_graph (prune_plan p required output)) a b.
 Proof. exact prune_preserves_deps. Qed.
 Print Assumptions C01_prune_general.
+
+(** End to end, without a registry: in every run of the graph that [run] hands to the engine, under every
+    schedule, a call starts only after every call it depends on IN THE PLAN (through any mix of edges and
+    literals) has finished successfully. *)
+Theorem C01_plan_run_order :
+  forall (p : pgraph) (output : option nat) (c : cfg) (s : st),
+  pgraph_wf p -> g c = to_graph (run_graph p output) -> 1 <= workers c -> reachable c s ->
+  forall h1 h2 n, hist s = h1 ++ EStart n :: h2 ->
+  forall m, In m (pnodes (run_graph p output)) -> In n (pnodes (run_graph p output)) ->
+            reach (to_graph p) m n -> In (EOk m) h2.
+Proof. exact plan_run_order. Qed.
+Print Assumptions C01_plan_run_order.
